@@ -27,7 +27,7 @@ CHECKS = {
  "C10": dict(
     level="fault_enumeration",
     technique="complete enumeration of a fault matrix (configuration class x flag subset x output pre-state x input fault x companion input file, each with and without --quiet) against the real binary, plus rapid-generated configurations placed in drawn cells with the reference model as verdict oracle",
-    text="Every cell of the 21 x 8 x 8 x 5 x 4 matrix (configuration class x flag subset x output pre-state x input fault x companion file: none / a valid second file before / after / matched by the same glob) is executed in both tiers; the iff between exit status 0 and a complete written file, the untouched -o path on every failure (lstat-level comparison), the numbered list / step count agreement and the --quiet contract are checked in each.",
+    text="Every cell of the 21 x 8 x 8 x 5 x 7 matrix (configuration class x flag subset x output pre-state x input fault x companion file: none / a valid second file before / after / matched by the same glob / with commas, quotation marks or 41 multi-byte characters in its name); the quick tier runs every cell of the first four arrangements and a seed-dependent third of the name variants is executed in both tiers; the iff between exit status 0 and a complete written file, the untouched -o path on every failure (lstat-level comparison), the numbered list / step count agreement and the --quiet contract are checked in each.",
     note="Root sandbox: unwritable outputs are injected as directory, missing parent and /dev/full rather than by permissions; stdout faults are out of scope.",
     ref="DESIGN.md §4 C10"),
  "C08": dict(
